@@ -17,7 +17,8 @@
 
    Outside the model ([WUnmod], counted by the correspondence, never compared): maps of containers
    (SourceLocation.children, reachable only by writing `sourceLocations...` in a .j5s file), map keys and scalar-split
-   delimiters that are not ASCII / not ".", float literals of more than 300 runes, a scalar split nested more than
+   delimiters that are not ASCII / not "." (empty for the translated schema: C07_walker_split_delimiters_modelled),
+   [float literals are modelled since round 4: float_lit_ok], a scalar split nested more than
    3 deep, (in CmpbWalkFile.v) a oneof message with two members set.  No proofs here. *)
 From Coq Require Import Ascii String List NArith ZArith Bool Arith.
 From J5V.lib Require Import Text Outcome.
@@ -193,6 +194,19 @@ Definition as_int (bits : N) (a : aval) : option N :=
 Definition float_tok (a : aval) : option (list N) :=
   match a with ATok t _ => match ty t with INT | DECIMAL => Some (lit t) | _ => None end | _ => None end.
 
+(* strconv.ParseFloat(lit, 64) on an INT / DECIMAL token (the lexer's digits are Unicode digits, at most one '.'):
+   syntax error unless every rune is an ASCII digit or the dot; range error iff the correctly rounded value is
+   +Inf, i.e. value >= 2^1024 - 2^970 (half an ulp above the largest float64, the tie rounds to even = up); the
+   bound is an integer and the fraction is below 1, so that is a condition on the integer part alone.  Every
+   float property of the translated schema is float64 (proofs/CmpbWalkProofs.v no_float32_props). *)
+Definition ascii_digit (c : N) : bool := N.leb 48 c && N.leb c 57.
+Fixpoint int_part (l : list N) : list N :=
+  match l with [] => [] | c :: r => if N.eqb c 46 then [] else c :: int_part r end.
+Definition float64_limit : N := (2 ^ 1024 - 2 ^ 970)%N.
+Definition float_lit_ok (l : list N) : bool :=
+  forallb (fun c => ascii_digit c || N.eqb c 46) l &&
+  match dec_value (int_part l) 0%N with Some n => N.ltb n float64_limit | None => false end.
+
 (* the scalar stored: (kind tag, text): 0 string 1 bool 2 number (as written) 3 enum option (as written) 4 any *)
 Definition sval : Type := (N * list N)%type.
 Definition trim_prefix (p s : string) : string :=
@@ -208,7 +222,7 @@ Definition conv_scalar (k : skind) (a : aval) : conv :=
   | KInt bits => match as_int bits a with Some _ => ConvOk (2%N, match int_tok a with Some l => l | None => [] end) | None => ConvErr end
   | KUint bits => match as_uint bits a with Some _ => ConvOk (2%N, match int_tok a with Some l => l | None => [] end) | None => ConvErr end
   | KFloat => match float_tok a with
-              | Some l => if Nat.ltb 300 (length l) then ConvUnmod else ConvOk (2%N, l)
+              | Some l => if float_lit_ok l then ConvOk (2%N, l) else ConvErr
               | None => ConvErr
               end
   | KEnum prefix opts =>
